@@ -113,8 +113,11 @@ func newRateTotal(c *Combo, zero num.Amount) *RateTotal {
 
 // Category provides the category total for the matching code.
 func (t *Total) Category(code cbc.Code) *CategoryTotal {
+	if t == nil {
+		return nil
+	}
 	for _, ct := range t.Categories {
-		if ct.Code == code {
+		if ct != nil && ct.Code == code {
 			return ct
 		}
 	}
@@ -148,7 +151,7 @@ func (rt *RateTotal) matches(c *Combo) bool {
 func (t *Total) rateTotalFor(c *Combo, zero num.Amount) *RateTotal {
 	var catTotal *CategoryTotal
 	for _, ct := range t.Categories {
-		if ct.Code == c.Category {
+		if ct != nil && ct.Code == c.Category {
 			catTotal = ct
 			break
 		}
@@ -161,7 +164,7 @@ func (t *Total) rateTotalFor(c *Combo, zero num.Amount) *RateTotal {
 	// Prepare the Rate, match using percent value
 	var rateTotal *RateTotal
 	for _, rt := range catTotal.Rates {
-		if rt.matches(c) {
+		if rt != nil && rt.matches(c) {
 			rateTotal = rt
 			break
 		}
@@ -234,33 +237,41 @@ func (t *Total) Clone() *Total {
 		return nil
 	}
 	nt := new(Total)
-	nt.Categories = make([]*CategoryTotal, len(t.Categories))
-	for i, ct := range t.Categories {
-		nt.Categories[i] = new(CategoryTotal)
-		nt.Categories[i].Code = ct.Code
-		nt.Categories[i].Retained = ct.Retained
-		nt.Categories[i].Amount = ct.Amount
-		nt.Categories[i].amount = ct.amount
+	nt.Categories = make([]*CategoryTotal, 0, len(t.Categories))
+	for _, ct := range t.Categories {
+		if ct == nil {
+			continue // null rows are not copied
+		}
+		nct := new(CategoryTotal)
+		nct.Code = ct.Code
+		nct.Retained = ct.Retained
+		nct.Amount = ct.Amount
+		nct.amount = ct.amount
 		if ct.Surcharge != nil {
 			cs := *ct.Surcharge
-			nt.Categories[i].Surcharge = &cs
+			nct.Surcharge = &cs
 		}
-		nt.Categories[i].Rates = make([]*RateTotal, len(ct.Rates))
-		for j, rt := range ct.Rates {
-			nt.Categories[i].Rates[j] = new(RateTotal)
-			nt.Categories[i].Rates[j].Key = rt.Key
-			nt.Categories[i].Rates[j].Country = rt.Country
-			nt.Categories[i].Rates[j].Ext = rt.Ext
-			nt.Categories[i].Rates[j].Base = rt.Base
-			nt.Categories[i].Rates[j].Percent = rt.Percent
-			nt.Categories[i].Rates[j].Amount = rt.Amount
+		nct.Rates = make([]*RateTotal, 0, len(ct.Rates))
+		for _, rt := range ct.Rates {
+			if rt == nil {
+				continue // null rows are not copied
+			}
+			nrt := new(RateTotal)
+			nrt.Key = rt.Key
+			nrt.Country = rt.Country
+			nrt.Ext = rt.Ext
+			nrt.Base = rt.Base
+			nrt.Percent = rt.Percent
+			nrt.Amount = rt.Amount
 			if rt.Surcharge != nil {
-				nt.Categories[i].Rates[j].Surcharge = &RateTotalSurcharge{
+				nrt.Surcharge = &RateTotalSurcharge{
 					Percent: rt.Surcharge.Percent,
 					Amount:  rt.Surcharge.Amount,
 				}
 			}
+			nct.Rates = append(nct.Rates, nrt)
 		}
+		nt.Categories = append(nt.Categories, nct)
 	}
 	nt.Sum = t.Sum
 	nt.sum = t.sum
@@ -276,6 +287,9 @@ func (t *Total) Merge(t2 *Total) *Total {
 
 	// Now merge the second total
 	for _, ct := range t2.Categories {
+		if ct == nil {
+			continue
+		}
 		// Find the category in the nt total
 		var catTotal *CategoryTotal
 		for _, mct := range nt.Categories {
@@ -299,6 +313,9 @@ func (t *Total) Merge(t2 *Total) *Total {
 			}
 			// Merge the rates
 			for _, rt := range ct.Rates {
+				if rt == nil {
+					continue
+				}
 				// Find the rate in the nt category
 				var rateTotal *RateTotal
 				for _, mrt := range catTotal.Rates {
@@ -357,6 +374,9 @@ func (t *Total) calculateFinalSum(zero num.Amount, rr cbc.Key) {
 	// Now go through each category to apply the percentage and calculate the final sums
 	t.Sum = zero
 	for _, ct := range t.Categories {
+		if ct == nil {
+			continue
+		}
 		t.calculateBaseCategoryTotal(ct, zero, rr)
 
 		t.Sum = matchRoundingPrecision(rr, t.Sum, ct.Amount)
@@ -378,6 +398,9 @@ func (t *Total) calculateBaseCategoryTotal(ct *CategoryTotal, zero num.Amount, r
 	ct.Amount = zero
 	ct.Surcharge = nil // recalculated from the rates below
 	for _, rt := range ct.Rates {
+		if rt == nil {
+			continue
+		}
 		if rt.Percent == nil {
 			rt.Amount = zero
 			continue // exempt, nothing else to do
@@ -415,7 +438,13 @@ func matchRoundingPrecision(rr cbc.Key, a, b num.Amount) num.Amount {
 // still.
 func (t *Total) round(zero num.Amount) {
 	for _, ct := range t.Categories {
+		if ct == nil {
+			continue
+		}
 		for _, rt := range ct.Rates {
+			if rt == nil {
+				continue
+			}
 			rt.Amount = rt.Amount.Rescale(zero.Exp())
 			rt.Base = rt.Base.Rescale(zero.Exp())
 			if rt.Surcharge != nil {
